@@ -16,7 +16,7 @@ TEXTS = {"form": 0, "type": 1, "tostring": 2, "validity": 3, "tojson": 5}
 
 # ================================================================================================ generator
 def spec_info(spec):
-    info = {"length": lg.spec_len(spec), "depth": lg.depth_of(spec), "keys": lg.keys_of(spec)}
+    info = {"length": lg.spec_len(spec), "depth": lg.depth_of(spec), "keys": lg.keys_of(spec), "top": spec["k"]}
     try:
         inner = [len(x) for x in lg.value_of(spec) if isinstance(x, list)]
     except Exception:
